@@ -150,6 +150,12 @@ def judge(ctx, tag, coords, paths=PATHS):
             ctx.violate("normal_form", f"normal_form:{tag}:{path}", observed=geoms._plain(g.coordinates), expected=nf, spec=sp)
             continue
         try:
+            # a geometry that has merely been looked at (notebook display, repr, dumps) is still the same geometry
+            for look in ("_repr_html_", "__repr__", "__str__", "model_dump", "model_dump_json", "geom_type"):
+                try:
+                    getattr(g, look)()
+                except Exception:
+                    pass
             again = data.geometry_validate(g.model_dump_json())
             if again != g or type(again) is not type(g):
                 ctx.violate("json_roundtrip", f"json_roundtrip:{tag}:{path}", observed=geoms._plain(again.coordinates), expected=geoms._plain(g.coordinates), spec=sp)
